@@ -124,6 +124,8 @@ func getReflectType(abiTypeName string, inputABI abi.ABI, typeCache map[string]r
 	switch abiTypeName {
 	case "string":
 		return reflect.TypeOf(""), nil
+	case "bool":
+		return reflect.TypeOf(false), nil
 	case "uint8":
 		return reflect.TypeOf(uint8(0)), nil
 	case "uint16":
